@@ -342,6 +342,15 @@ fn fn_j<'tcx>(
         gs.push(J::Str(generics.param_at(i, tcx).name.to_string()));
     }
     o.push(("generics".into(), J::Arr(gs)));
+    // names of the *type* parameters, in the order in which a call's `targs` lists their instantiation
+    let mut gts = Vec::new();
+    for i in 0..generics.count() {
+        let p = generics.param_at(i, tcx);
+        if matches!(p.kind, ty::GenericParamDefKind::Type { .. }) {
+            gts.push(J::Str(p.name.to_string()));
+        }
+    }
+    o.push(("generic_types".into(), J::Arr(gts)));
 
     o.push(("body".into(), body_j(tcx, did, body)));
     // promoted constants' bodies are not dumped; they are evaluated at use sites.
